@@ -1065,7 +1065,8 @@ class SymEx:
         for t in terms:
             scan(t)
         nbare = sum(count_bare(t) for t in terms)
-        base = self.bv_depth
+        # fresh bound variables: above the current depth AND above every bound variable already inside the element (parameters of a lambda it builds, ...)
+        base = max([self.bv_depth] + [z[1] + 1 for t in terms for z in T.subterms(t) if z[0] == 'bv' and isinstance(z[1], int)])
         if idx and nbare == 0:
             n = max(idx) + 1
             bvs = tuple(('bv', base + i) for i in range(n))
@@ -1524,7 +1525,6 @@ class SymEx:
             finally:
                 self.bv_depth = base
             body = res[0][1] if len(res) == 1 else ('havoc', 'lambda', self.site(e))
-            lam = ('lambda', len(ps), body)
             # the closure itself, for when the lambda is CALLED (its effects then belong to the calling path)
             cenv = dict(st.env)
             dflt = {}
@@ -1533,6 +1533,8 @@ class SymEx:
                 if len(r_) == 1:
                     dflt[a_.arg] = r_[0][1]         # lambda x, k=k: ...  binds k NOW (the early-binding idiom)
             cenv['@defaults'] = dflt
+            # defaults travel with the value (position, term): a thunk stored in a record and called elsewhere is still `body` with those values
+            lam = ('lambda', len(ps), body) if not dflt else ('lambda', len(ps), body, tuple((i_, dflt[p_]) for i_, p_ in enumerate(ps) if p_ in dflt), ('num', T.Fraction(base)))
             self.closures[id(lam)] = (lam, e, cenv, self.fn)
             return [(st, lam)]
         if isinstance(e, ast.JoinedStr):
@@ -2538,10 +2540,14 @@ class SymEx:
                         z.env = dict(saved)
                         out.append((z, v))
                     return out
-            if len(args) == fv[1] and not kwargs:
-                # pure beta-reduction of the summarised body
-                base = self.bv_depth
-                m = {('bv', base + k_): a for k_, a in enumerate(args)}
+            full = list(args)
+            if len(fv) > 3 and not kwargs and len(args) < fv[1]:
+                dm = dict(fv[3])
+                full = list(args) + [dm.get(k_) for k_ in range(len(args), fv[1])]
+            if len(full) == fv[1] and not kwargs and None not in full:
+                # pure beta-reduction of the summarised body (missing trailing arguments take the defaults bound at creation)
+                base = int(fv[4][1]) if len(fv) > 4 else self.bv_depth       # parameters are numbered from the depth at which the lambda was created
+                m = {('bv', base + k_): a for k_, a in enumerate(full)}
                 return [(st, T.replace(fv[2], lambda z: m.get(z) if z[0] == 'bv' else None))]
         return self.call_opaque(e, fv, args, kwargs, st)
 
